@@ -5,6 +5,7 @@ import OvniModel.Lemmas.BayBuild
 import OvniModel.Lemmas.BayTotal
 import OvniModel.Lemmas.BayTopo
 import OvniModel.Lemmas.CoreBayView
+import OvniModel.Lemmas.CoreBayTotal
 
 /-!
 # C06 — view consistency: the tracking muxes compute `thView` / `cpuView`
@@ -759,6 +760,107 @@ theorem hooks_in_use (tab : List MarkType) :
     HookSim (fun _ _ _ _ _ => .error .unknownEvent) ∧ HookSim (fun e ti _ v p => markEvent tab e ti v p) :=
   ⟨hookSim_none, hookSim_mark tab⟩
 
+/-! ### The generated channel specs only use the modes the theorems cover -/
+
+/-- Every thread tracking mode in the (regenerated) channel specs of every
+    model is ANY, RUN or ACT — the three cases of `track_th_input_chan`. -/
+theorem generated_thread_modes :
+    ∀ s ∈ allSpecs, ∀ x ∈ s.thTrack, x = trackAny ∨ x = trackRun ∨ x = trackAct := by decide
+
+/-- Every CPU tracking mode is RUN (`connect_cpu` rejects anything else), and
+    the CPU tracks select on `th_running`, which is what `cpuView` reads. -/
+theorem generated_cpu_modes : ∀ s ∈ allSpecs, ∀ x ∈ s.cpuTrack, x = trackRun := by decide
+
+/-! ### No hypothesis left for the configurations the emulator runs -/
+
+/-- `emu_connect` succeeds (`bayOf e` is what it builds) whenever the tracking
+    modes of the specs are the ones `track_th_input_chan` / `connect_cpu`
+    accept. -/
+theorem bayOf_connects {e : Emu} (hmo : e.shape.ModesOk) : e.shape.connect = .ok (bayOf e) := by
+  obtain ⟨b0, h⟩ := e.shape.connect_total hmo
+  rw [bayOf_eq h]; exact h
+
+/-- The generated specs of any enabled set of models, plus the mark group of
+    any mark table, satisfy the three side conditions of `emu_init`. -/
+theorem driver_side_conditions (enabled : List Nat) (tab : List MarkType) :
+    let specs := allSpecs.filter (fun s => enabled.contains s.char) ++ markExtra tab
+    (∀ m ∈ specs, ∀ i : Nat,
+      (m.thTrack.getD i 0 = trackAny ∨ m.thTrack.getD i 0 = trackRun ∨ m.thTrack.getD i 0 = trackAct) ∧
+      m.cpuTrack.getD i trackRun = trackRun) ∧
+    (specs.map (·.char)).Nodup ∧ InitSingle specs := by
+  intro specs
+  have hmem : ∀ m ∈ specs, m ∈ allSpecs ∨ (m = markSpec tab) := by
+    intro m hm
+    rcases List.mem_append.mp hm with h | h
+    · exact Or.inl (List.mem_filter.mp h).1
+    · right
+      unfold markExtra at h
+      split at h
+      · cases h
+      · simpa using h
+  refine ⟨?_, ?_, ?_⟩
+  · have := Shape.modesOk_of_lists (σ := ⟨0, 0, specs⟩)
+      (by
+        intro m hm x hx
+        rcases hmem m hm with h | rfl
+        · exact generated_thread_modes m h x hx
+        · simp only [markSpec, List.mem_map] at hx
+          obtain ⟨_, _, rfl⟩ := hx; exact Or.inr (Or.inr rfl))
+      (by
+        intro m hm x hx
+        rcases hmem m hm with h | rfl
+        · exact generated_cpu_modes m h x hx
+        · simp only [markSpec, List.mem_map] at hx
+          obtain ⟨_, _, rfl⟩ := hx; rfl)
+    exact this
+  · show ((allSpecs.filter (fun s => enabled.contains s.char) ++ markExtra tab).map (·.char)).Nodup
+    rw [List.map_append, List.nodup_append]
+    refine ⟨?_, ?_, ?_⟩
+    · have h0 : (allSpecs.map (·.char)).Nodup := by decide
+      exact List.Nodup.sublist (List.Sublist.map _ List.filter_sublist) h0
+    · unfold markExtra; split
+      · exact List.nodup_nil
+      · simp
+    · intro a ha b hb
+      obtain ⟨m, hm, rfl⟩ := List.mem_map.mp ha
+      have hm' := (List.mem_filter.mp hm).1
+      have h1 : ∀ s ∈ allSpecs, s.char ≠ markGroup := by decide
+      unfold markExtra at hb
+      split at hb
+      · cases hb
+      · simp only [List.map_cons, List.map_nil, List.mem_singleton] at hb
+        rw [hb]; exact h1 m hm'
+  · intro m hm i v hv
+    rcases List.mem_append.mp hm with h | h
+    · exact initSingle_allSpecs enabled m h i v hv
+    · unfold markExtra at h
+      split at h
+      · cases h
+      · simp only [List.mem_singleton] at h
+        subst h
+        simp [ModelSpec.initOf, markSpec] at hv
+
+/-- **emu_run for the emulator as it is run** (`Drivers/Emu.lean`: any thread
+    and CPU lists with at least one thread, any set of enabled models, any mark
+    table; hooks: no task layer, `markEvent`).  No other hypothesis: the
+    connected bay exists, and after ANY accepted history the bay reached by
+    replaying the handlers' writes and propagating satisfies `Inv` — so every
+    thread row is `thView`, every CPU row `cpuView` (`emu_thread_rows`,
+    `emu_cpu_rows`). -/
+theorem emu_run_driver (threads : List (Int × Int × Nat)) (cpus : List (Nat × Int × Bool))
+    (enabled : List Nat) (lint : Bool) (tab : List MarkType) (evs : List Ev) {eF : Emu} {rs : List PrvRec}
+    (hnt : 0 < threads.length)
+    (h : replay (fun _ _ _ _ _ => .error .unknownEvent) (fun e ti _ v p => markEvent tab e ti v p)
+      (mkEmu threads cpus enabled lint (markExtra tab)) evs = .ok (eF, rs)) :
+    ∃ b0 bF, (mkEmu threads cpus enabled lint (markExtra tab)).shape.connect = .ok b0 ∧
+      Rounds (· < (mkEmu threads cpus enabled lint (markExtra tab)).shape.L) b0 bF ∧ Shaped eF ∧
+      eF.shape = (mkEmu threads cpus enabled lint (markExtra tab)).shape ∧ Inv b0 eF bF := by
+  obtain ⟨hmo, hchars, hinit⟩ := driver_side_conditions enabled tab
+  have hc := bayOf_connects (e := mkEmu threads cpus enabled lint (markExtra tab)) hmo
+  obtain ⟨bF, hr, hsF, hshF, hiF⟩ := emu_run hookSim_none (hookSim_mark tab) threads cpus enabled lint
+    (markExtra tab) evs hc hnt hchars hinit h
+  exact ⟨_, bF, hc, hr, hsF, hshF, hiF⟩
+
 /-
 -- OPEN (what is left of the last composition step).
 --
@@ -794,26 +896,14 @@ theorem hooks_in_use (tab : List MarkType) :
 --  (4) The task layer of nOS-V / Nanos6 (`VT*`, `VY*`, `6T*`, `6Y*`) is a hook of
 --      `modelEvent` (`Emu/Task.lean` has its own state); for it `HookSim` is a hypothesis
 --      (`hooks_in_use`: it holds for the hooks the driver runs, `noHook` and `markEvent`).
---  (5) `Shape.connect` returning `.ok` is a hypothesis (it does for every hierarchy whose
---      thread tracking modes are ANY / RUN / ACT and CPU modes RUN, cf.
---      `generated_thread_modes`, `generated_cpu_modes`; totality of the connection
---      functions is not proved, the `example`s below run it), as are: at least one
---      thread, distinct model characters, connect-time values on single channels
---      (`emu_init`; all three decidable on a given hierarchy).
+--  (5) `emu_init` / `emu_run` keep three side conditions on the spec list (accepted
+--      tracking modes so that `Shape.connect` succeeds — `bayOf_connects`; distinct model
+--      characters; connect-time values on single channels) and "at least one thread".
+--      `driver_side_conditions` discharges the first three for every enabled set and
+--      every mark table (`emu_run_driver`); a hierarchy without threads accepts no event.
 --  (6) Outside the frame condition as before: muxes whose select is one of their own
 --      inputs, and chained muxes (breakdown model) — X1 only.
 -/
-
-/-! ### The generated channel specs only use the modes the theorems cover -/
-
-/-- Every thread tracking mode in the (regenerated) channel specs of every
-    model is ANY, RUN or ACT — the three cases of `track_th_input_chan`. -/
-theorem generated_thread_modes :
-    ∀ s ∈ allSpecs, ∀ x ∈ s.thTrack, x = trackAny ∨ x = trackRun ∨ x = trackAct := by decide
-
-/-- Every CPU tracking mode is RUN (`connect_cpu` rejects anything else), and
-    the CPU tracks select on `th_running`, which is what `cpuView` reads. -/
-theorem generated_cpu_modes : ∀ s ∈ allSpecs, ∀ x ∈ s.cpuTrack, x = trackRun := by decide
 
 /-! ### Non-vacuity: a concrete thread + CPU network
 
